@@ -2,8 +2,82 @@
 #define CONST_CHECK_HELPERS_H
 
 #include "core/interpreter.h"
+#include "managers/types/manager.h"
 
 namespace AssignmentHelpers {
+
+inline const StructMember *declared_struct_member(Interpreter &interpreter,
+                                                  const ASTNode *access);
+
+/**
+ * 式の宣言された構造体型名を、式を評価せずに求める:
+ * 構造体の変数 s / 構造体へのポインタ p / 構造体配列 arr とその要素 arr[i]、
+ * 構造体型（またはそのポインタ）のメンバー s.in, p->in、*p。
+ * 構造体に関係しない式は空文字列。
+ */
+inline std::string declared_struct_type_name(Interpreter &interpreter,
+                                             const ASTNode *expr) {
+    if (!expr) {
+        return "";
+    }
+    switch (expr->node_type) {
+    case ASTNodeType::AST_VARIABLE:
+    case ASTNodeType::AST_IDENTIFIER: {
+        Variable *var = interpreter.find_variable(expr->name);
+        if (var && var->is_reference && var->value != 0) {
+            var = reinterpret_cast<Variable *>(var->value);
+        }
+        if (!var) {
+            return "";
+        }
+        if ((var->type == TYPE_POINTER || var->is_pointer) &&
+            !var->pointer_base_type_name.empty()) {
+            return var->pointer_base_type_name;
+        }
+        return var->struct_type_name;
+    }
+    case ASTNodeType::AST_MEMBER_ACCESS:
+    case ASTNodeType::AST_ARROW_ACCESS: {
+        const StructMember *member = declared_struct_member(interpreter, expr);
+        if (!member) {
+            return "";
+        }
+        if (member->is_pointer) {
+            return member->pointer_base_type_name;
+        }
+        // 構造体配列メンバー "P[2]" は要素型 "P"
+        return member->type_alias.substr(0, member->type_alias.find('['));
+    }
+    case ASTNodeType::AST_ARRAY_REF:
+        return declared_struct_type_name(interpreter, expr->left.get());
+    case ASTNodeType::AST_UNARY_OP:
+        if (expr->op == "DEREFERENCE") {
+            return declared_struct_type_name(interpreter, expr->left.get());
+        }
+        return "";
+    default:
+        return "";
+    }
+}
+
+/**
+ * メンバーアクセス式 s.m / p->m が指すメンバーの宣言（構造体定義の
+ * StructMember）。構造体型が分からない場合は nullptr。
+ */
+inline const StructMember *declared_struct_member(Interpreter &interpreter,
+                                                  const ASTNode *access) {
+    if (!access || !access->left) {
+        return nullptr;
+    }
+    std::string owner_type =
+        declared_struct_type_name(interpreter, access->left.get());
+    if (owner_type.empty()) {
+        return nullptr;
+    }
+    const StructDefinition *struct_def = interpreter.find_struct_definition(
+        interpreter.get_type_manager()->resolve_typedef(owner_type));
+    return struct_def ? struct_def->find_member(access->name) : nullptr;
+}
 
 /**
  * 式が「指し先が const のポインタ」(const T*) かどうかを、式を評価せずに
@@ -12,11 +86,17 @@ namespace AssignmentHelpers {
  *  - 関数呼び出し f(...): f の宣言された戻り値型 (const T* f())。
  *    戻り値の const は return された値ではなく宣言で決まる
  *    (const int* getp() { return &G; } の結果は const int*)。
+ *  - 構造体メンバー h.p / hp->p: メンバーの宣言 (struct H { const T* p; })
  */
 inline bool is_pointer_to_const_expression(Interpreter &interpreter,
                                            const ASTNode *expr) {
     if (!expr) {
         return false;
+    }
+    if (expr->node_type == ASTNodeType::AST_MEMBER_ACCESS ||
+        expr->node_type == ASTNodeType::AST_ARROW_ACCESS) {
+        const StructMember *member = declared_struct_member(interpreter, expr);
+        return member && member->is_pointer && member->is_const;
     }
     if (expr->node_type == ASTNodeType::AST_VARIABLE ||
         expr->node_type == ASTNodeType::AST_IDENTIFIER) {
@@ -65,6 +145,23 @@ inline void check_pointer_const_conversion(Interpreter &interpreter,
             target_desc +
             ": discards const qualifier from pointed-to type. Declare it "
             "as 'const T*'");
+    }
+}
+
+/**
+ * ポインタメンバーへの代入 h.p = q / hp->p = q でも同じ変換を禁止する:
+ * const T* の値を T* と宣言されたメンバーに格納すると、そのメンバー経由で
+ * 指し先を書き換えられてしまう。
+ */
+inline void check_member_pointer_const_conversion(Interpreter &interpreter,
+                                                  const ASTNode *member_access,
+                                                  const ASTNode *source_expr) {
+    const StructMember *member =
+        declared_struct_member(interpreter, member_access);
+    if (member && member->is_pointer) {
+        check_pointer_const_conversion(interpreter, source_expr,
+                                       member->is_const,
+                                       "member '" + member_access->name + "'");
     }
 }
 
